@@ -41,18 +41,31 @@ Record rf := mkRF {
   rf_gone : list bytes
 }.
 
-Definition taken (s k : N) (d : list (rname * bytes)) : bool :=
-  existsb (fun e => (fst (fst e) =? s)%N && (snd (fst e) =? k)%N) d.
-
 (* "name := path.ts; for i := 1; ; i++ { if Lstat(name) fails break; name = path.ts.i }":
-   the first k = 0, 1, 2, ... whose name does not exist *)
-Fixpoint first_free (fuel : nat) (s k : N) (d : list (rname * bytes)) : N :=
-  match fuel with
-  | O => k
-  | S f => if taken s k d then first_free f s (k + 1)%N d else k
+   the first k = 0, 1, 2, ... whose name does not exist.  Evaluated by striking each name found
+   off the list of the k's in use for that second (Proofs: the result is not in use and every
+   smaller k is). *)
+Definition ks_of (s : N) (d : list (rname * bytes)) : list N :=
+  flat_map (fun e => if (fst (fst e) =? s)%N then [snd (fst e)] else []) d.
+
+Fixpoint remove_one (k : N) (l : list N) : option (list N) :=
+  match l with
+  | [] => None
+  | x :: r => if (x =? k)%N then Some r
+              else match remove_one k r with Some r' => Some (x :: r') | None => None end
   end.
 
-Definition free_k (s : N) (d : list (rname * bytes)) : N := first_free (S (length d)) s 0%N d.
+Fixpoint mex (fuel : nat) (k : N) (ks : list N) : N :=
+  match fuel with
+  | O => k
+  | S f => match remove_one k ks with
+           | Some ks' => mex f (k + 1)%N ks'
+           | None => k
+           end
+  end.
+
+Definition free_k (s : N) (d : list (rname * bytes)) : N :=
+  let ks := ks_of s d in mex (length ks) 0%N ks.
 
 (* rotate(): Sync, Close, Rename to the first free name for now, reopen (O_CREATE, pos = 0).
    [skipped]/[k] only feed the ghost history. *)
